@@ -8,8 +8,8 @@
      predefined entities, character data; line-end and attribute-value
      normalisation; the Char production (anything else: ExpatError); "]]>" in
      character data; duplicate attributes; mismatched / unclosed tags; junk
-     after the document element.  Comments, PIs, CDATA, DOCTYPE, numeric
-     character references, ':' and non-ASCII characters in names are answered
+     after the document element; numeric character references.  Comments, PIs,
+     CDATA, DOCTYPE, ':' and non-ASCII characters in names are answered
      with [Err 3] (outside the subset; the harness never generates them and
      does not compare such cases).
 
@@ -68,6 +68,29 @@ Definition n_quot : str := [113; 117; 111; 116].
 Definition n_apos : str := [97; 112; 111; 115].
 Definition n_xmlns : str := [120; 109; 108; 110; 115].
 
+(* numeric character references: decimal and hexadecimal digits *)
+Fixpoint dec_digits (s : str) (acc : Z) : option Z :=
+  match s with
+  | [] => Some acc
+  | c :: r => if is_ascii_digit c then dec_digits r (acc * 10 + (c - 48)) else None
+  end.
+Definition hex_digit (c : Z) : option Z :=
+  if is_ascii_digit c then Some (c - 48)
+  else if (97 <=? c) && (c <=? 102) then Some (c - 87)
+  else if (65 <=? c) && (c <=? 70) then Some (c - 55)
+  else None.
+Fixpoint hex_digits (s : str) (acc : Z) : option Z :=
+  match s with
+  | [] => Some acc
+  | c :: r => match hex_digit c with Some d => hex_digits r (acc * 16 + d) | None => None end
+  end.
+(* the reference must name a character XML can carry, else "reference to invalid character number" *)
+Definition charref (o : option Z) : res Z :=
+  match o with
+  | Some v => if xml_char v then Ok v else Err 2
+  | None => Err 2
+  end.
+
 (* entity name (between & and ;) -> character *)
 Definition entity (nm : str) : res Z :=
   if str_eqb nm n_amp then Ok 38
@@ -76,7 +99,8 @@ Definition entity (nm : str) : res Z :=
   else if str_eqb nm n_quot then Ok 34
   else if str_eqb nm n_apos then Ok 39
   else match nm with
-       | 35 :: _ => Err 3          (* numeric character reference *)
+       | 35 :: 120 :: (_ :: _) as h => charref (hex_digits (tl (tl nm)) 0)     (* &#x..; *)
+       | 35 :: (_ :: _) as d => charref (dec_digits (tl nm) 0)                  (* &#..; *)
        | _ => Err 2                (* undefined entity / not well-formed *)
        end.
 
